@@ -1,5 +1,6 @@
 import PynencModel.Props.C02
-open Pynenc.C02
+import PynencModel.Props.C02Excl
+open Pynenc.C02 Pynenc.C02X Pynenc.C02X.CvProofs
 #print axioms claim_only_from_available
 #print axioms second_claim_refused
 #print axioms claim_preceded_by_release
@@ -11,3 +12,11 @@ open Pynenc.C02
 #print axioms no_double_body
 #print axioms reregistration_changes_nothing
 #print axioms registration_creates_registered
+#print axioms inv_step
+#print axioms mutual_exclusion
+#print axioms write_replaces_what_was_read
+#print axioms no_lost_update
+#print axioms check_then_create_lets_two_in
+#print axioms condition_with_recheck_excludes
+#print axioms condition_without_recheck_lets_two_in
+#print axioms code_is_lookup_enter_read_decide_write_leave
